@@ -213,7 +213,8 @@ Print Assumptions c19_tarfile_rebuild.
    (cachePackage); and PackageData creates a TEMPORARY file, copies into it and
    renames it to the final name (os.Remove calls are its error paths). *)
 Theorem c19_code_order :
-  (forall o d e c1 c2, index_calls (populate_index o d e [c1; c2]) false = retrieve_calls) /\
+  (forall o d e c1 c2, index_calls (populate_index o d e [c1; c2]) false =
+                       List.filter (fun c => negb (String.eqb c "os.Remove")) retrieve_calls) /\
   advertise_call_names = advertise_calls /\
   (forall o d a s, a_sig a = Some s ->
      cache_package_call_names (pkg_advs_ord (ctl_last_of_calls cache_package_calls) o d a) = cache_package_calls) /\
@@ -578,14 +579,26 @@ Proof. vm_compute. repeat split. Qed.
    newest modification time is unique the listing order does not matter at all. *)
 Theorem c19_offline_picks_newest : forall l,
   (forall e, pick_newest l = Some e -> Newest l e /\ FirstNewest l e) /\
+  (* either way — among all entries, or among the advertised ones — no advertised entry is newer *)
+  (forall e, pick_newest l = Some e \/ pick_newest_adv l = Some e ->
+     In e l /\ forall x, In x l -> de_adv x = true -> (de_mtime x <= de_mtime e)%N) /\
   (l <> [] -> exists e, pick_newest l = Some e) /\
   (forall l' e e', Permutation l l' -> pick_newest l = Some e -> pick_newest l' = Some e' ->
      (forall x, In x l -> de_mtime x = de_mtime e -> x = e) -> e' = e).
 Proof.
   intros l. split; [intros e H; split; [apply pick_newest_newest|apply pick_first_newest]; exact H|].
+  split.
+  { intros e [H|H]; [apply pick_no_adv_newer; exact H|].
+    destruct (pick_adv_no_adv_newer l e H) as (A & _ & B). split; assumption. }
   split; [apply pick_some|]. intros l' e e'. apply pick_unique_max.
 Qed.
 Print Assumptions c19_offline_picks_newest.
+
+(* the candidates in the source of this run: every entry of the directory (the code today) or,
+   with fixes/C19-F5.patch, the entries whose name does not end in ".tmp" *)
+Theorem c19_offline_code : offline_filter = [] \/ offline_filter = ["skip-suffix:.tmp"].
+Proof. vm_compute. first [left; reflexivity | right; reflexivity]. Qed.
+Print Assumptions c19_offline_code.
 
 (* What the property needs of that entry — it holds ALL the bytes of one served response, of the
    file that was asked for — does NOT follow (findings C19-F5 and C19-F6):
